@@ -26,7 +26,8 @@ GOALS = {
               'quiet poll', 'two processes applied in one batch'],
     'thorough': ['deferral across a call boundary', 'truncated interval',
                  'quiet poll', 'two processes applied in one batch',
-                 'a process runs in a worker'],
+                 'a process runs in a worker',
+                 'a process nested in a compartment'],
 }
 STUBS = sched_stubs = [
     'stub processes (pure): symbolic timestep per process or per poll, symbolic '
@@ -81,6 +82,9 @@ def jobs(tier):
                     J.append(_cfg('parallel-N2-%d%d' % (p0, p1), 2, 2, 3,
                                   'const', 'none', tier, parallel=True,
                                   par_fixed={'0': p0, '1': p1}))
+        J.append(_cfg('nested-N2', 2, 2, 3, 'const', 'none', tier, nested=True))
+        J.append(_cfg('nested-condfresh-N2', 2, 1, 3, 'const', 'fresh', tier,
+                      nested=True))
         # off-integer times: concrete dyadic floats chosen by forking
         J.append(_cfg('dyadic-N2', 2, 2, 3, 'const', 'none', tier,
                       ts_grid=[0.5, 1.5, 0.25], iv_grid=[0.75, 1.5, 2.0],
@@ -102,6 +106,7 @@ def jobs(tier):
                       parallel=True))
         J.append(_cfg('parallel-condfresh-N2', 2, 1, 3, 'const', 'fresh', tier,
                       parallel=True))
+        J.append(_cfg('nested-N3', 3, 2, 3, 'const', 'none', tier, nested=True))
         J.append(_cfg('dyadic-N2', 2, 3, 3, 'const', 'none', tier,
                       ts_grid=[0.5, 1.5, 0.25, 1.0],
                       iv_grid=[0.75, 1.5, 2.0, 0.5], K=14))
